@@ -333,3 +333,159 @@ META = dict(
          'the bounded harness; the 365/366-day calendar branch is covered by the bounded harness only.',
     assumptions=[sym.A_REAL],
     explanation='')
+
+
+# ---------------------------------------------------------------------------
+# bounded stand-in: getTimes vs cftime / independent julian arithmetic
+# ---------------------------------------------------------------------------
+
+REF_SPELLINGS = [
+    ('{Y}-{m}-{d}', 0), ('{Y}-{m}-{d} 00:00:00', 0), ('{Y}-{m}-{d} 00:00:00 UTC', 0), ('{Y}-{m}-{d} 00:00 UTC', 0),
+    ('{Y}-{m}-{d} 00 UTC', 0), ('{Y}-{m}-{d} 00:00:00Z', 0), ('{Y}-{m}-{d} 00:00Z', 0), ('{Y}-{m}-{d} 00Z', 0),
+    ('{Y}-{m}-{d} 00:00:00+0000', 0), ('{Y}-{m}-{d} 00:00', 0), ('{Y}-{m}-{d} 00', 0), ('{Y}-{m}-{d} 06:30:00', 0),
+    ('{Y}-{m}-{d} 00:00:00-0600', -6 * 3600), ('{Y}-{m}-{d} 00:00:00+0530', 5.5 * 3600), ('{Y}-{m}-{d} 12:00:00-06:00', -6 * 3600),
+]
+
+
+def bounded(tier, seed):
+    from rtc import harness as H
+    import numpy as np
+    import cftime
+    from datetime import datetime, timedelta, timezone
+    P = H.real()
+    run = H.Run('C12', tier, seed, budget_s=60 if tier == 'quick' else 500)
+    utc = timezone.utc
+    years = [1900, 1970, 1999, 2000, 2001, 2100]
+    mds = [(1, 1), (2, 28), (3, 1), (12, 31)]
+    offsets = [0, 0.5, 1, 30, 365, 366, 36524, 100000.0]
+    units = ['days', 'hours', 'minutes', 'seconds']
+    stdcals = ['standard', 'gregorian', 'proleptic_gregorian', None]
+    if tier == 'quick':
+        years, mds = [1970, 2000, 2001], [(1, 1), (3, 1)]
+
+    def mkfile(vals, unitstr, cal):
+        f = P.PseudoNetCDFFile()
+        f.createDimension('time', len(vals))
+        v = f.createVariable('time', 'd', ('time',), values=np.array(vals, 'd'))
+        v.units = unitstr
+        if cal is not None:
+            v.calendar = cal
+        return f
+    for Y in years:
+        for (m, d) in mds:
+            for sp, tzoff in REF_SPELLINGS:
+                base = sp.format(Y='%04d' % Y, m='%02d' % m, d='%02d' % d)
+                for unit in units:
+                    for cal in (stdcals if (sp, unit) == (REF_SPELLINGS[1][0], 'hours') or tier != 'quick' else ['standard']):
+                        if Y < 1583 and cal in ('standard', 'gregorian', None):
+                            continue
+                        unitstr = '%s since %s' % (unit, base)
+                        f = mkfile(offsets, unitstr, cal)
+
+                        def t(f=f, unitstr=unitstr, cal=cal):
+                            got = f.getTimes()
+                            exp = cftime.num2date(np.array(offsets, 'd'), unitstr, calendar=cal or 'standard',
+                                                  only_use_cftime_datetimes=False, only_use_python_datetimes=True)
+                            for g, e, o in zip(got, exp, offsets):
+                                e = e.replace(tzinfo=utc)
+                                if abs((g - e).total_seconds()) > 1e-3:
+                                    return 'offset %r: getTimes %s, cftime %s' % (o, g.isoformat(), e.isoformat())
+                            back = f.date2num(got, 'time')
+                            if not np.allclose(back, offsets, rtol=1e-9, atol=1e-6):
+                                return 'date2num(getTimes()) = %r' % (back.tolist(),)
+                            idx = np.asarray(f.time2idx(got, dim='time'))
+                            if not np.array_equal(idx, np.arange(len(offsets))):
+                                return 'time2idx(getTimes()) = %r' % (idx.tolist(),)
+                            return None
+                        run.case('C12:CF:%s since <%s> calendar=%s' % (unit, sp, cal), (unitstr, cal), t)
+        if run.out_of_time():
+            break
+    # 365/366-day calendars: compare calendar fields with cftime
+    for cal in ('noleap', '365_day', 'all_leap', '366_day'):
+        for Y in (years if tier != 'quick' else [2001]):
+            for (m, d) in ((1, 1), (3, 1)):
+                for unit in units:
+                    unitstr = '%s since %04d-%02d-%02d 00:00:00' % (unit, Y, m, d)
+                    scale = {'days': 1, 'hours': 24, 'minutes': 1440, 'seconds': 86400}[unit]
+                    offs = [0, 0.25 * scale, 1.25 * scale, 58 * scale, 59.5 * scale, 365 * scale, 800.75 * scale]
+                    f = mkfile(offs, unitstr, cal)
+
+                    def t(f=f, unitstr=unitstr, cal=cal, offs=offs):
+                        got = f.getTimes()
+                        exp = cftime.num2date(np.array(offs, 'd'), unitstr, calendar=cal)
+                        for g, e, o in zip(got, exp, offs):
+                            ge = (g.year, g.month, g.day, g.hour, g.minute, g.second)
+                            ee = (e.year, e.month, e.day, e.hour, e.minute, e.second)
+                            if ge != ee:
+                                return 'offset %r: getTimes %r, cftime %r' % (o, ge, ee)
+                        return None
+                    run.case('C12:CF-%s:%s' % ('365-day' if cal in ('noleap', '365_day') else '366-day', unit), (unitstr, cal), t)
+    # IOAPI flags and attributes vs independent julian arithmetic
+    def jul(yyyyjjj, hhmmss):
+        return datetime(yyyyjjj // 1000, 1, 1, tzinfo=utc) + timedelta(days=yyyyjjj % 1000 - 1, hours=hhmmss // 10000,
+                                                                     minutes=hhmmss // 100 % 100, seconds=hhmmss % 100)
+    for Y in (range(1970, 2070, 7) if tier != 'quick' else (1999, 2000, 2024)):
+        for J in (1, 59, 60, 365, 366):
+            if J == 366 and not (Y % 4 == 0 and (Y % 100 != 0 or Y % 400 == 0)):
+                continue
+            for ST in (0, 5959, 120000, 235959):
+                for TS in (100, 3000, 10000, 240000, 1000000):
+                    for bnds in (False, True):
+                        n = 4
+                        f = P.PseudoNetCDFFile()
+                        f.createDimension('TSTEP', n)
+                        f.SDATE, f.STIME, f.TSTEP = Y * 1000 + J, ST, TS
+                        step = timedelta(hours=TS // 10000, minutes=TS // 100 % 100, seconds=TS % 100)
+                        exp = [jul(Y * 1000 + J, ST) + i * step for i in range(n + (1 if bnds else 0))]
+
+                        def t(f=f, exp=exp, bnds=bnds):
+                            got = list(f.getTimes(bounds=bnds))
+                            if len(got) != len(exp) or any(abs((g - e).total_seconds()) > 1e-3 for g, e in zip(got, exp)):
+                                return 'SDATE/STIME/TSTEP: got %s expected %s' % ([g.isoformat() for g in got[:3]], [e.isoformat() for e in exp[:3]])
+                            return None
+                        run.case('C12:IOAPI-attributes bounds=%s' % bnds, (Y, J, ST, TS, bnds), t)
+                        # the same instants as TFLAG
+                        g = P.PseudoNetCDFFile()
+                        g.createDimension('TSTEP', n); g.createDimension('VAR', 1); g.createDimension('DATE-TIME', 2)
+                        tf = np.zeros((n, 1, 2), 'i')
+                        for i in range(n):
+                            e = exp[i]
+                            tf[i, 0] = [e.year * 1000 + e.timetuple().tm_yday, e.hour * 10000 + e.minute * 100 + e.second]
+                        g.createVariable('TFLAG', 'i', ('TSTEP', 'VAR', 'DATE-TIME'), values=tf)
+                        g.TSTEP = TS
+                        if TS <= 235959 or not bnds:
+
+                            def t2(g=g, exp=exp, bnds=bnds):
+                                got = list(g.getTimes(bounds=bnds))
+                                if len(got) != len(exp) or any(abs((a - b).total_seconds()) > 1e-3 for a, b in zip(got, exp)):
+                                    return 'TFLAG: got %s expected %s' % ([x.isoformat() for x in got[-2:]], [x.isoformat() for x in exp[-2:]])
+                                from PseudoNetCDF.coordutil import gettimes
+                                got2 = [x.replace(tzinfo=utc) for x in gettimes(g)]
+                                if any(abs((a - b).total_seconds()) > 1e-3 for a, b in zip(got2, exp)):
+                                    return 'coordutil.gettimes differs'
+                                return None
+                            run.case('C12:IOAPI-TFLAG bounds=%s' % bnds, (Y, J, ST, TS, bnds), t2)
+                        if not bnds:
+                            def t3(g=g, exp=exp, Y=Y, J=J, ST=ST):
+                                # CF time variable synthesised from IOAPI metadata decodes to the same instants
+                                from PseudoNetCDF.conventions.ioapi._ioapi import add_time_variable
+                                h = g.copy()
+                                h.SDATE, h.STIME = Y * 1000 + J, ST
+                                add_time_variable(h, 'time')
+                                tv = h.variables['time']
+                                dec = cftime.num2date(np.asarray(tv[:], 'd'), tv.units.strip(), only_use_cftime_datetimes=False,
+                                                      only_use_python_datetimes=True)
+                                if any(abs((a.replace(tzinfo=utc) - b).total_seconds()) > 1e-3 for a, b in zip(dec, exp)):
+                                    return 'synthesised time variable decodes to %s, flags say %s' % (dec[1].isoformat(), exp[1].isoformat())
+                                return None
+                            run.case('C12:IOAPI-synthesised-time', (Y, J, ST, TS), t3)
+        if run.out_of_time():
+            break
+    return run.result(
+        rule='getTimes vs cftime.num2date for CF variables (reference spellings x units x calendars x offsets), vs independent julian arithmetic for IOAPI '
+             'flags/attributes incl. bounds=True, synthesised CF time vs flags; date2num/time2idx inverse',
+        bound='reference dates %r x %d spellings x 4 units; offsets %r; IOAPI years sampled 1970-2069, days {1,59,60,365,366}, 4 start times, 5 steps' % (years, len(REF_SPELLINGS), offsets))
+
+
+def bounded_replay(p):
+    return False, p.get('what')
